@@ -90,7 +90,7 @@ def preprocess(src, defined):
     for k, v in sorted(objs.items(), key=lambda kv: -len(kv[0])):
         if v != "":
             text = re.sub(r"\b%s\b" % re.escape(k), v, text)
-    text = re.sub(r"__attribute__\s*\(\(.*?\)\)", "", text)
+    text = re.sub(r"__attribute__\s*\(\((?:[^()]|\([^()]*\))*\)\)", "", text)
     text = re.sub(r"\b(static\s+)?inline\b", "static", text)
     text = re.sub(r"\b__restrict(__)?\b|\brestrict\b", "", text)
     return text, objs, funcs
